@@ -389,23 +389,24 @@ registry.register("C18", {
     "axioms_allowed": [],
     "classify": classify,
     "components": [
-        {"name": "sc", "gen": gen_sc, "fixed": fixed_sc, "quick": 3000, "thorough": 60000,
+        {"name": "sc", "gen": gen_sc, "fixed": fixed_sc, "quick": 5000, "thorough": 60000,
          "valid": lambda c: all(v >= 0 for v in c),
          "nontrivial": lambda case, out: len(case) > 2 and (case[0] == 0 or (len(out) > 1)),
          "histogram": sc_hist},
-        {"name": "pkt", "gen": gen_pkt, "fixed": fixed_pkt, "quick": 1200, "thorough": 30000,
+        {"name": "pkt", "gen": gen_pkt, "fixed": fixed_pkt, "quick": 3000, "thorough": 30000,
          "valid": lambda c: all(v >= 0 for v in c),
          "nontrivial": lambda case, out: len(case) > 2 and (case[0] == 0 or (len(out) > 1)),
          "histogram": pkt_hist},
-        {"name": "map", "gen": gen_map, "fixed": fixed_map, "quick": 4000, "thorough": 100000,
+        {"name": "map", "gen": gen_map, "fixed": fixed_map, "quick": 8000, "thorough": 100000,
          "valid": lambda c: all(v >= 0 for v in c),
          "nontrivial": lambda case, out: len(case) > 4 and 1 in case[2::],
          "histogram": map_hist},
     ],
-    "rule": "sc: fixed families (every kind x queue-id x varint size boundary, truncations, one mutation at every position, every first byte, every prefix length) + seeded random: 55% round-trip cases (fields -> real encoder with a key derived by the real schedule for either cipher suite -> real decoder; all 255 x len single-byte mutations inside the harness; up to 8 extra byte xors + truncation), 45% raw byte strings (half of them near-valid packets built by an independent Python encoder, mutated/truncated). A round-trip case is always non-trivial; a raw case when it decodes.",
+    "rule": "sc: fixed families (every kind x queue-id x varint size boundary, truncations, one mutation at every position, every first byte, every prefix length) + seeded random: 55% round-trip cases (fields -> real encoder with a key derived by the real schedule for either cipher suite -> real decoder; all 255 x len single-byte mutations inside the harness; up to 8 extra byte xors + truncation), 45% raw byte strings (half of them near-valid packets built by an independent Python encoder, mutated/truncated). pkt: every tag-bit combination of stream/datagram/control x 4 size profiles, every varint field at every size boundary, every first byte, every truncation of a valid packet of each kind, retransmission-offset overflow edges + seeded random: 50% round-trip cases (real encoder, real AES-GCM-128/256 or HMAC-SHA256/384 keys from the real key schedule, decode + open, all 255 x len single-byte mutations of header, ciphertext and tag inside the harness, one multi-byte mutation), 50% raw byte strings through the tag dispatcher (near-valid packets of all six kinds from an independent Python encoder, mutated/truncated, and noise). map: every (kind, forgery mode, entry point) on a fresh map, replayed/forged StaleKey sequences, entries older than 10 s with eviction enabled (harness sleeps) + seeded random op sequences of up to 30 deliveries/key-id issues with 4 forgery modes. A round-trip case is always non-trivial; a raw case when it decodes; a map case when it delivers at least one packet.",
     "assumptions": [
-        "ideal MAC: a (header, tag) pair verifies only if the key holder produced it (Section hypothesis of the C18_*_rejected theorems; the harness monitors it with real HMAC-SHA256/384 keys from the real key schedule)",
+        "ideal MAC / AEAD: a (nonce, header, ciphertext, tag) tuple opens / verifies only if the key holder produced it (explicit premise of the C18_*_rejected / *_accept_is_sent theorems; the harness monitors it with real HMAC-SHA256/384 and AES-128/256-GCM keys derived by the real key schedule)",
+        "map handlers run one at a time (the model is sequential); entry age is the only use of wall-clock time (harness sleeps 10 s for the aged cases)",
     ],
-    "trusted_base": ["no axioms: Print Assumptions reports 'Closed under the global context' for every C18 theorem; the ideal-MAC/AEAD hypothesis is an explicit premise"],
+    "trusted_base": ["no axioms: Print Assumptions reports 'Closed under the global context' for every C18 theorem; the ideal-MAC/AEAD hypothesis is an explicit premise of the theorems that need it"],
     "explanation": "Coq theorems C18_* over the reference layouts of the dc packets; models tied to the source by the generated tag constants and by differential execution against the real encoders/decoders with real keys",
 })
